@@ -558,9 +558,9 @@ fn tag_of(b: &[u8]) -> (String, bool) {
 
 /// Walk `bytes[start..end)`; returns false when the range is not tiled by well-formed chunks.
 /// `brk` receives the tag of the last well-placed chunk before the first anomaly.
-fn walk(bytes: &[u8], start: usize, end: usize, depth: u32, lay: &Layout, out: &mut Vec<Ck>, brk: &mut Option<String>) {
+fn walk(bytes: &[u8], start: usize, end: usize, depth: u32, parent: &str, lay: &Layout, out: &mut Vec<Ck>, brk: &mut Option<String>) {
     let mut off = start;
-    let mut last = String::new();
+    let mut last = parent.to_string();
     while off < end && out.len() < 96 {
         if off + 8 > end {
             brk.get_or_insert(last.clone());
@@ -568,7 +568,7 @@ fn walk(bytes: &[u8], start: usize, end: usize, depth: u32, lay: &Layout, out: &
         }
         let (tag, known) = tag_of(&bytes[off..off + 4]);
         let size = u32::from_le_bytes([bytes[off + 4], bytes[off + 5], bytes[off + 6], bytes[off + 7]]) as usize;
-        out.push(Ck { tag: tag.clone(), off, size: size.min(0x7FFF_FFFF), depth });
+        out.push(Ck { tag: tag.clone(), off, size: size.min(0x3FFF_FFFF), depth });
         if !known || off + 8 + size > end {
             brk.get_or_insert(last.clone());
             if off + 8 + size > end {
@@ -577,7 +577,7 @@ fn walk(bytes: &[u8], start: usize, end: usize, depth: u32, lay: &Layout, out: &
         }
         if let Some(h) = lay.containers.get(&tag) {
             if *h <= size && off + 8 + size <= end {
-                walk(bytes, off + 8 + h, off + 8 + size, depth + 1, lay, out, brk);
+                walk(bytes, off + 8 + h, off + 8 + size, depth + 1, &tag, lay, out, brk);
             } else {
                 brk.get_or_insert(tag.clone());
             }
@@ -633,7 +633,7 @@ fn refs_of(bytes: &[u8], c: Option<&Ck>, elem: usize, field: usize, mask: u32) -
 fn layout_events(case: &str, bytes: &[u8], lay: &Layout, lens: &BTreeMap<&str, usize>, want: &Wants, evs: &mut Vec<Value>) -> String {
     let mut cs = Vec::new();
     let mut brk = None;
-    walk(bytes, 0, bytes.len(), 1, lay, &mut cs, &mut brk);
+    walk(bytes, 0, bytes.len(), 1, "", lay, &mut cs, &mut brk);
     let brk = brk.unwrap_or_default();
     evs.push(json!({"ev":"Chunks","case":case,"len":bytes.len(),"brk":brk,
         "cs": cs.iter().map(|c| json!({"tag":c.tag,"off":c.off,"size":c.size,"depth":c.depth})).collect::<Vec<_>>()}));
@@ -730,8 +730,10 @@ fn run_root(case: &str, c: &Value, lay: &Layout, seed: u64) -> Vec<Value> {
                    ("n_doodad_names", "MODN"), ("n_doodad_defs", "MODD"), ("n_doodad_sets", "MODS")] {
         want.count_chunk.insert(f, t.to_string());
     }
-    want.tex1 = root.materials.iter().map(|m| tok(resolve_tex(&root, m.texture1).as_bytes())).collect();
-    want.tex2 = root.materials.iter().map(|m| tok(resolve_tex(&root, m.texture2).as_bytes())).collect();
+    // "-" = the object itself references no texture name at that offset (no obligation)
+    let want_tex = |o: u32| if root.texture_offset_index_map.contains_key(&o) { tok(resolve_tex(&root, o).as_bytes()) } else { "-".to_string() };
+    want.tex1 = root.materials.iter().map(|m| want_tex(m.texture1)).collect();
+    want.tex2 = root.materials.iter().map(|m| want_tex(m.texture2)).collect();
     want.gname = root.groups.iter().map(|x| tok(x.name.as_bytes())).collect();
     want.dname = root.doodad_defs.iter().map(|_| "-".to_string()).collect();
     let mut body = Vec::new();
